@@ -11,7 +11,8 @@ package xbus
 //@   lock Mutex level 20
 //@   guarded_by Mutex: closed sizeQ pipes recvQLen sendQLen recvExpire recvQ
 //@   immutable: closeQ
-//@   elem_invariant recvQ: !shared(elem)
+//@   never_closed: recvQ
+//@   elem_invariant recvQ: elem != nil && !shared(elem)
 //@
 //@ func (*socket).SendMsg
 //@   loop 1 complete
@@ -46,3 +47,7 @@ package xbus
 //@   ensures option == protocol.OptionRaw ==> isnil(result1) && result0 == iface(true)
 //@
 // ---- end generated option contracts ----
+//@
+//@ func (*socket).OpenContext
+//@   modifies none
+//@   ensures isnil(result0) && result1 == protocol.ErrProtoOp
